@@ -3,6 +3,7 @@ package main
 // Contract stubs for library functions (every one is part of the claims that use it).
 
 import (
+	"fmt"
 	"go/types"
 	"strings"
 
@@ -39,8 +40,10 @@ func namedOf(t types.Type) *types.Named {
 }
 
 // dummyResult builds an inert result of fn's result type(s).
-func (ex *Exec) dummyResult(fn *ssa.Function) Value {
-	res := fn.Signature.Results()
+func (ex *Exec) dummyResult(fn *ssa.Function) Value { return ex.dummySig(fn.Signature) }
+
+func (ex *Exec) dummySig(sig *types.Signature) Value {
+	res := sig.Results()
 	mk := func(t types.Type) Value {
 		switch t.Underlying().(type) {
 		case *types.Interface:
@@ -232,6 +235,24 @@ func init() {
 		}
 		return nilErr()
 	}
+	intercepts["errors.As"] = func(ex *Exec, fr *Frame, a []Value, s ssa.Instruction) Value {
+		err, ok := a[0].(*IfaceV)
+		tgt := a[1].(*IfaceV)
+		if !ok || err.typ == nil || tgt.typ == nil {
+			return ex.tt.Bool(false)
+		}
+		pt, ok := tgt.typ.Underlying().(*types.Pointer)
+		if !ok {
+			panic(ex.goPanic("errors.As: target must be a non-nil pointer"))
+		}
+		if types.Identical(pt.Elem(), err.typ) {
+			ex.store(ex.ptr(tgt.v), err.v)
+			return ex.tt.Bool(true)
+		}
+		return ex.tt.Bool(false)
+	}
+	intercepts["strconv.Itoa"] = func(ex *Exec, fr *Frame, a []Value, s ssa.Instruction) Value { return ex.fmtArg(a[0]) }
+	intercepts["strconv.FormatInt"] = func(ex *Exec, fr *Frame, a []Value, s ssa.Instruction) Value { return ex.fmtArg(a[0]) }
 	intercepts["errors.Is"] = func(ex *Exec, fr *Frame, a []Value, s ssa.Instruction) Value {
 		return ex.eqValues(a[0], a[1])
 	}
@@ -415,3 +436,109 @@ func init() {
 }
 
 type tmplObj struct{ text *Term }
+
+// ---- arbitrary values of a Go type (forged cursors, decoded client data)
+
+func (ex *Exec) havocValue(t types.Type, name string, depth int) Value {
+	tt := ex.tt
+	switch u := t.Underlying().(type) {
+	case *types.Basic:
+		switch {
+		case u.Info()&types.IsString != 0:
+			return ex.input(name, "string", SString)
+		case u.Info()&types.IsBoolean != 0:
+			return ex.input(name, "bool", SBool)
+		case u.Info()&types.IsInteger != 0:
+			w, _ := intWidth(u)
+			return ex.input(name, "int", BVSort(w))
+		}
+	case *types.Pointer:
+		if depth > 3 {
+			return &PtrV{typ: t}
+		}
+		inner := ex.havocValue(u.Elem(), name, depth+1)
+		return &PtrV{obj: ex.newObj(inner, u.Elem()), isNil: ex.input(name+".nil", "bool", SBool), typ: t}
+	case *types.Struct:
+		sv := &StructV{fs: make([]Value, u.NumFields())}
+		for i := range sv.fs {
+			sv.fs[i] = ex.havocValue(u.Field(i).Type(), name+"."+u.Field(i).Name(), depth+1)
+		}
+		return sv
+	case *types.Map:
+		if isStringMap(t) {
+			switch ex.choose(2, nil, "havoc-map:"+name) {
+			case 0:
+				return &MapV{}
+			default:
+				m := ex.newSymMap()
+				k, v := ex.input(name+".k0", "string", SString), ex.input(name+".v0", "string", SString)
+				m.has = tt.Store(m.has, k, tt.Bool(true))
+				m.val = tt.Store(m.val, k, v)
+				m.keys = append(m.keys, k)
+				return &MapV{m: m}
+			}
+		}
+	case *types.Slice:
+		if isByteSlice(t) {
+			return &BytesV{isNil: ex.input(name+".nil", "bool", SBool), s: ex.input(name, "bytes", SString)}
+		}
+		n := ex.choose(3, nil, "havoc-slice-len:"+name)
+		if n == 0 {
+			return &SliceV{}
+		}
+		arr := &ArrayV{}
+		for i := 0; i < n; i++ {
+			arr.es = append(arr.es, ex.havocValue(u.Elem(), fmt.Sprintf("%s[%d]", name, i), depth+1))
+		}
+		return &SliceV{arr: ex.newObj(arr, nil), len: n, cap: n}
+	}
+	panic(ex.unsupported("havoc of type %s", t))
+}
+
+func init() {
+	cur := "(*" + repoMod + "/internal/kernel/t_api.Cursor[T])."
+	intercepts[cur+"Decode"] = func(ex *Exec, fr *Frame, a []Value, s ssa.Instruction) Value {
+		ex.H.noteStub("jwt cursor: Decode forks {error, validly signed token with arbitrary claims}; the signing key is a constant in the source")
+		p := ex.ptr(a[0])
+		st := ex.peek(p).(*StructV)
+		switch ex.choose(2, nil, "cursor-decode") {
+		case 0:
+			return ex.opaqueErr("jwt: token is malformed / signature is invalid")
+		}
+		// forged (or genuine) token: claims are whatever the bearer chose
+		nt := p.obj.typ
+		if nt == nil && p.typ != nil {
+			nt = p.typ.(*types.Pointer).Elem()
+		}
+		var ft types.Type
+		if nt != nil {
+			ft = nt.Underlying().(*types.Struct).Field(0).Type()
+		} else {
+			ft = s.(*ssa.Call).Call.Args[0].Type().(*types.Pointer).Elem().Underlying().(*types.Struct).Field(0).Type()
+		}
+		st.fs[0] = ex.havocValue(ft, "cursor.next", 0)
+		return nilErr()
+	}
+	intercepts[cur+"Encode"] = func(ex *Exec, fr *Frame, a []Value, s ssa.Instruction) Value {
+		ex.H.noteStub("jwt cursor: Encode returns an opaque token")
+		return &TupleV{vs: []Value{ex.input("cursor.token", "string", SString), nilErr()}}
+	}
+	intercepts["google.golang.org/grpc/status.Error"] = func(ex *Exec, fr *Frame, a []Value, s ssa.Instruction) Value {
+		ex.nobj++
+		return &IfaceV{typ: ex.P.errorStringType(), v: &OpaqueV{kind: "error", data: "grpc status", id: ex.nobj, aux: a[0]}}
+	}
+	intercepts["github.com/google/uuid.New"] = func(ex *Exec, fr *Frame, a []Value, s ssa.Instruction) Value {
+		return &OpaqueV{kind: "uuid"}
+	}
+	intercepts["(github.com/google/uuid.UUID).String"] = func(ex *Exec, fr *Frame, a []Value, s ssa.Instruction) Value {
+		return ex.tt.Str("00000000-0000-4000-8000-000000000000")
+	}
+	vx("GrpcCode", func(ex *Exec, fr *Frame, a []Value, s ssa.Instruction) Value {
+		if iv, ok := a[0].(*IfaceV); ok && iv.typ != nil {
+			if op, ok := iv.v.(*OpaqueV); ok && op.aux != nil {
+				return ex.tt.Resize(op.aux.(*Term), 64, false)
+			}
+		}
+		return ex.tt.BV(^uint64(0), 64)
+	})
+}
